@@ -125,4 +125,10 @@ DegreeCountsOrd(S, order) ==
 IsPossibleOrder(S, d) == d >= 0 /\ d <= MaxEdgeOrder(S)
 \* edge_neighborhood(H, n, include_self): one member set per edge of n, in the order of n's memberships
 EdgeNeighborhood(S, n, inclSelf) == {<<e, IF inclSelf THEN S.e2n[e] ELSE S.e2n[e] \ {n}>> : e \in S.n2e[n]}
+
+\* views restricted to a bunch, and their set algebra: always the network's ids, in the network's
+\* order, restricted to the resulting set; a bunch naming an unknown id is refused
+ViewIds(all, B) == Only(all, B)
+ViewAlgebra(all, A, B) ==
+  << ViewIds(all, A \cap B), ViewIds(all, A \cup B), ViewIds(all, A \ B), ViewIds(all, (A \ B) \cup (B \ A)) >>
 =============================================================================
